@@ -654,3 +654,54 @@ def regen(repo, lean_dir):
     info['comparison_functions'] = len(CMP_TARGETS) + 1
     info['untranslatable'] = info['untranslatable'] + errors
     return info
+
+
+# ======================================================================================================
+# Truth testing: Qube.__bool__ as a decision list over (truth_if_all, truth_if_any, has a shape, single mask is True).
+# Accepted: a sequence of `if <flag>: return bool(np.all|np.any(self.as_mask_where_nonzero()))` / `if <flag>: raise ValueError(…)`
+# with <flag> one of self._truth_if_all_, self._truth_if_any_, self._shape_, self._mask_, closed by a return of the same form.
+
+BOOL_FLAGS = {'self._truth_if_all_': 'tAll', 'self._truth_if_any_': 'tAny', 'self._shape_': 'shaped', 'self._mask_': 'masked'}
+
+
+def gen_bool(repo):
+    try:
+        tree = ast.parse(open(os.path.join(repo, 'polymath/qube.py')).read())
+        f = find_func(tree, '__bool__', 'Qube')
+
+        def outcome(st):
+            if isinstance(st, ast.Raise) and isinstance(st.exc, ast.Call) and dotted(st.exc.func) == 'ValueError':
+                return '.raises'
+            if isinstance(st, ast.Return):
+                s = ast.unparse(st.value)
+                if s == 'bool(np.all(self.as_mask_where_nonzero()))': return '.allNonzero'
+                if s == 'bool(np.any(self.as_mask_where_nonzero()))': return '.anyNonzero'
+            raise Untranslatable('outcome ' + ast.unparse(st).split('\n')[0])
+        expr, closed = [], None
+        for st in f.body:
+            if isinstance(st, ast.Expr) and isinstance(st.value, ast.Constant):
+                continue
+            if isinstance(st, ast.If) and not st.orelse and len(st.body) == 1 and ast.unparse(st.test) in BOOL_FLAGS:
+                expr.append((BOOL_FLAGS[ast.unparse(st.test)], outcome(st.body[0])))
+                continue
+            closed = outcome(st)
+            break
+        if closed is None:
+            raise Untranslatable('no closing return')
+        body = closed
+        for flag, o in reversed(expr):
+            body = '(bif %s then %s else %s)' % (flag, o, body)
+        d = '/-- regenerated from polymath/qube.py:%d `__bool__` -/\ndef bool_gen (tAll tAny shaped masked : Bool) : BoolOut := %s\n' % (f.lineno, body)
+        return d, []
+    except (Untranslatable, SyntaxError, OSError) as e:
+        return ('/-- NOT TRANSLATABLE (%s): placeholder that fails its obligation -/\n'
+                'def bool_gen (tAll tAny shaped masked : Bool) : BoolOut := .raises\n' % str(e).replace('-/', '- /')), ['polymath/qube.py:__bool__: %s' % e]
+
+
+_gen_comparisons_0 = gen_comparisons
+
+
+def gen_comparisons(repo):
+    src, errors = _gen_comparisons_0(repo)
+    d, e2 = gen_bool(repo)
+    return src.replace('\nend PMV.Gen.Cmp\n', '\n' + d + '\nend PMV.Gen.Cmp\n'), errors + e2
